@@ -365,6 +365,7 @@ class CallMixin:
         v = self.ev1(tree, s)
         # pure evaluation may have appended type facts to s.pc; s.pc is st.pc (shared list) so nothing to copy
         st.nalloc = s.nalloc
+        st.alloc_base = s.alloc_base
         st.heap = s.heap
         return v
 
@@ -394,8 +395,12 @@ class CallMixin:
     def havoc_cmodifies(self, st: State, c: Contract, env: Dict[str, Val], func) -> None:
         for cond, fields in c.cmodifies:
             g = self.spec_bool(st, cond, env, func)
-            if z3.is_false(g):
+            if z3.is_false(g) or not self.feasible(st, g):
                 continue
+            if "*" in fields:
+                from .spec import PROTECTED_FIELDS
+
+                fields = [f for f in list(st.heap.keys()) + [k for k in st.heap0 if k not in st.heap] if f not in PROTECTED_FIELDS]
             before = {f: st.harr(f) for f in fields}
             self.havoc_modifies(st, fields, env, func)
             for f in fields:
@@ -449,6 +454,9 @@ class CallMixin:
         (self.used_assumed if c.assumed else self.used_contracts)[c.key or text] = c
         env = self.contract_env(st, c, fi, recv, args, kwargs, node)
         pre_state = st.fork()
+        pre_state.locals = dict(env)  # old(...) in the callee's clauses is evaluated in the callee's view of the call state
+        if fi is not None:
+            pre_state.func = fi
 
         def tracked(text: str) -> bool:
             """clauses about ghost variables that the current proof does not declare are not tracked"""
@@ -478,6 +486,8 @@ class CallMixin:
             mods = [m for m in mods if not (m.split(".")[0] in c.ghost and m.split(".")[0] not in st.ghost)]
             self.havoc_cmodifies(s2, c, env, fi)
             self.havoc_modifies(s2, mods, env, fi)
+            if not c.pure:
+                s2.bump_alloc()
             cls = fresh("exccls", IntS)
             s2.assume(exc_is_sub(cls, rz.exc))
             fields = {}
@@ -503,11 +513,19 @@ class CallMixin:
             res = Val(V.R(r), th=rth)
             if rth is not None and hint_kind(rth) == "obj":
                 s1.assume(clsof(r) == INTERN.class_id(rth.name))
+            if not c.pure:
+                s1.bump_alloc()
         elif rth is not None and rth.name == "None":
+            if not c.pure:
+                s1.bump_alloc()
             res = vnone()
         elif rth is not None and hint_kind(rth) == "tuple" and rth.args and not (len(rth.args) == 2 and rth.args[1].name == "Ellipsis"):
+            if not c.pure:
+                s1.bump_alloc()
             res = Val(tup=[self.typed(s1, fresh("ret"), a) for a in rth.args])
         else:
+            if not c.pure:
+                s1.bump_alloc()
             res = self.typed(s1, fresh("ret"), rth)
         env1 = dict(env)
         env1["result"] = res
@@ -537,7 +555,7 @@ class CallMixin:
             if len(outs) != 1 or outs[0].kind != "normal":
                 raise Unsupported(f"ghost effect forked: {text}")
             o = outs[0].st
-            st.heap, st.nalloc, st.ghost, st.pc = o.heap, o.nalloc, o.ghost, o.pc
+            st.heap, st.nalloc, st.alloc_base, st.ghost, st.pc = o.heap, o.nalloc, o.alloc_base, o.ghost, o.pc
             # ghost variables assigned by name
             for k in list(st.ghost):
                 if k in o.locals:
@@ -607,6 +625,11 @@ class CallMixin:
         if fn == "contains":
             a, b = self.ev1(node.args[0], st), self.ev1(node.args[1], st)
             return vbool(self.contains(st, a, b, node))
+        if fn == "is_fresh":
+            # is_fresh(x): x was allocated during the call (between the entry state and now)
+            x = self.ev1(node.args[0], st)
+            lo = st.old.alloc_bound() if st.old is not None else st.alloc0
+            return vbool(z3.And(V.is_R(x.z), V.r(x.z) >= lo, V.r(x.z) < st.alloc_bound()))
         if fn == "same_except":
             # same_except("field" | "$list" | "$dict", obj...): for every object that existed at entry, other than the
             # listed ones, the field (container content) has its entry value
